@@ -5,3 +5,4 @@ import Driver.Sign
 import Driver.Fetch
 import Driver.Codec
 import Driver.Conc
+import Driver.Crash
